@@ -98,6 +98,15 @@ def check_parse_side(v, ec, enc):
         back = f.to_er7(ec)
         if back != enc:
             out.append(('escape:parse-side-changed', 'parse_field(%r).to_er7() == %r' % (enc, back)))
+        # a leaf of a numeric / date datatype holding such text falls back to a textual object under TOLERANT: same text
+        from hl7apy.factories import datatype_factory
+        from hv.props import c13
+        for dt in ('NM', 'DT', 'SI'):
+            if dt in T.lib(v).BASE_DATATYPES and c13.REF[dt](enc) == 'invalid':
+                got = datatype_factory(dt, enc, v, 2).to_er7(ec)
+                if got != enc:
+                    out.append(('escape:tolerant-fallback-changed-text', 'datatype_factory(%r, %r, %s, TOLERANT).to_er7() == %r' % (dt, enc, v, got)))
+                    break
         line = 'ZZZ' + ec['FIELD'] + enc + ec['FIELD'] + 'k'
         back = P.parse_segment(line, version=v, encoding_chars=ec, validation_level=2).to_er7(ec)
         if back != line:
